@@ -161,7 +161,12 @@ def mutants(name, ini):
                            ('spline(as.buck 1000.0 0.3 0 >1.0 sum(as.zero) >2.0 as.buck 0 1 3)', 'spline-modifier-as-middle'),
                            ('spline(as.buck 1000.0 0.3 0 >2.0 exp_spline >1.0 as.buck 0 1 3)', 'spline-reversed-knots'),
                            ('spline(as.buck 1000.0 0.3 0 >1.0 exp_spline >1.0 as.buck 0 1 3)', 'spline-equal-knots'),
-                           ('spline(as.buck 1000.0 0.3 0 >1.0 exp_spline >2.0 as.buck 0 1 3, as.zero)', 'spline-two-arguments')):
+                           ('spline(as.buck 1000.0 0.3 0 >1.0 exp_spline >2.0 as.buck 0 1 3, as.zero)', 'spline-two-arguments'),
+                           # argument lists that break directly after a comma
+                           ('trans(as.buck 1000.0 0.2 32, 2.0)', 'modifier-bare-number-argument'), ('pow(as.buck 1000.0 0.3 32.0, 2)', 'modifier-bare-number-argument'),
+                           ('sum(as.buck 1000.0 0.3 32.0, )', 'modifier-trailing-comma'), ('sum(as.buck 1000.0 0.3 32.0,, as.zero)', 'modifier-doubled-comma'),
+                           ('product(, as.zero)', 'modifier-leading-comma'), ('sum(as.zero, >)', 'modifier-argument-only-a-marker'),
+                           ('sum(as.zero, sum(as.zero, ))', 'modifier-trailing-comma-nested'), ('sum(as.zero, ,)', 'modifier-only-commas')):
                 out.append(setv(sec, k, nv, '%s:%s' % (op, sec)))
             if v.startswith('tf') or 'tf' in v.split(',')[-1]:
                 out.append(setv(sec, k, v.replace('tf', 'tf 1.0', 1) if v.startswith('tf') else 'tf 1.0', 'table-form-with-parameter:%s' % sec))
@@ -269,6 +274,12 @@ def cases(tier):
         out.append(dict(kind='valid', model='target ' + tgt, text=retarget(M['setfl_fs'], tgt)))
     out.append(dict(kind='valid', model='target eam_adp', text=M['adp'].render()))
     out.append(dict(kind='valid', model='no [Tabulation] section (documented defaults)', text='[Pair]\nO-O : as.buck 1000.0 0.3 32.0\n'))
+    # table data wrapped over continuation lines, however many values a line holds
+    head = '[Tabulation]\ntarget : LAMMPS\nnr : 4\ncutoff : 3.0\n\n[Pair]\nO-O : tf\n\n[Table-Form:tf]\n'
+    for name, body in (('xy, 3 values per line', 'xy : 0 9 1\n   4 2 1\n   3 -1 4\n   -0.5 5 0\n'), ('xy, 5 + 7 values', 'xy : 0 9 1 4 2\n   1 3 -1 4 -0.5 5 0\n'),
+                       ('xy, 1 value per line', 'xy : 0\n  9\n  1\n  4\n  2\n  1\n  3\n  -1\n'), ('x and y wrapped differently', 'x : 0 1 2\n   3 4 5\ny : 9 4\n   1 -1\n   -0.5 0\n'),
+                       ('xy starting on the next line', 'xy :\n   0 9 1\n   4 2 1 3 -1\n')):
+        out.append(dict(kind='valid', model='table form, ' + name, text=head + body))
     return out
 
 
